@@ -167,6 +167,10 @@ int main()
          auto& near2 = lex.get_identifier(u8"_" + w);
          lex.get_symbol(near1, lex.int_type());
          lex.get_symbol(lex.get_identifier(w), lex.get_pointer(lex.char_type()));
+         // ordinary symbols named like the word itself, typed void / bool / int: legal requests that must not capture any route
+         lex.get_symbol(lex.get_identifier(w), lex.void_type());
+         lex.get_symbol(lex.get_identifier(w), lex.bool_type());
+         lex.get_symbol(lex.get_identifier(w), lex.int_type());
          lex.get_as_type(*lex.make_id_expr(near2));
          lex.get_as_type(near1);
          lex.get_linkage(w + u8"#");
@@ -195,29 +199,36 @@ int main()
          std::string kind, h;
          in >> kind >> h;
          std::u8string w = unhex(h);
+         // the word overloads receive a VIEW into a larger buffer (a token of a source line): the bytes behind it are not NUL
+         const std::u8string buffer = w + u8"+;x";
+         const util::word_view token(buffer.data(), w.size());
          if (kind == "as_type") {
-            auto& a = lex.get_as_type(lex.get_identifier(util::word_view(w)));
-            auto& b = lex.get_as_type(lex.get_identifier(lex.get_string(w)));
+            auto& a = lex.get_as_type(lex.get_identifier(token));
+            auto& b = lex.get_as_type(lex.get_identifier(lex.get_string(token)));
             std::printf("R %d as_type %s word=%s string=%s\n", i, h.c_str(), at(a).c_str(), at(b).c_str());
          }
          else if (kind == "ident") {
-            auto& a = lex.get_identifier(util::word_view(w));
-            auto& b = lex.get_identifier(lex.get_string(w));
+            auto& a = lex.get_identifier(token);
+            auto& b = lex.get_identifier(lex.get_string(token));
             std::printf("R %d ident %s word=%s string=%s\n", i, h.c_str(), at(a).c_str(), at(b).c_str());
          }
          else if (kind == "linkage") {
-            auto& a = lex.get_linkage(util::word_view(w));
-            auto& b = lex.get_linkage(lex.get_string(w));
+            auto& a = lex.get_linkage(token);
+            auto& b = lex.get_linkage(lex.get_string(token));
             std::printf("R %d linkage %s word=%s string=%s\n", i, h.c_str(), at(&a).c_str(), at(&b).c_str());
          }
          else if (kind == "label") {
-            auto& a = lex.get_label(lex.get_identifier(util::word_view(w)));
-            auto& b = lex.get_label(lex.get_identifier(lex.get_string(w)));
+            auto& a = lex.get_label(lex.get_identifier(token));
+            auto& b = lex.get_label(lex.get_identifier(lex.get_string(token)));
             std::printf("R %d label %s word=%s string=%s\n", i, h.c_str(), at(a).c_str(), at(b).c_str());
          }
          else if (kind == "decltype_nullptr") {
-            auto& a = lex.get_decltype(lex.nullptr_value());
-            auto& b = lex.get_decltype(lex.nullptr_value());
+            const ipr::Expr& as_expr = lex.nullptr_value();                    // the constant seen as a plain expression
+            ipr::impl::type_factory& factory = lex;                               // ... and asked of the factory base
+            auto& a = lex.get_decltype(as_expr);
+            auto& b = factory.get_decltype(lex.nullptr_value());
+            if (&lex.get_decltype(lex.nullptr_value()) != &a or &a != &b) { std::printf("R %d decltype_nullptr - word=%s string=%s\n", i, at(a).c_str(), at(lex.get_decltype(lex.nullptr_value())).c_str()); }
+            else
             std::printf("R %d decltype_nullptr - word=%s string=%s\n", i, at(a).c_str(), at(b).c_str());
          }
          else
